@@ -237,6 +237,55 @@ func doNotationScenario(bound int) *vsched.Scenario {
 	}
 }
 
+// ioOnHandlerScenario: the seam coroutine x MonadIO x Handler. A caller coroutine reaches the target through
+// a MonadIO observed on a Handler: the IO's effect performs the YieldFrom (on the Handler's goroutine) and
+// maps the answer; YieldFromIO returns the IO's value - the mapped answer of that very request - twice in a row.
+func ioOnHandlerScenario(observe bool, bound int) *vsched.Scenario {
+	fam := "yield-from-io-on-handler"
+	return &vsched.Scenario{
+		Name:  fmt.Sprintf("yield-from-io/effect-does-YieldFrom/observeOn-handler=%v", observe),
+		Bound: bound,
+		Body: func() {
+			var target, caller *fpgo.CorDef[int]
+			target = fpgo.CorNewGenerics[int](func() {
+				for k := 1; k <= 2; k++ {
+					vsched.Event("target-saw", k, target.YieldRef(k))
+				}
+			})
+			target.Start()
+			h := fpgo.Handler.NewByCh(make(chan func(), 1))
+			caller = fpgo.CorNewGenerics[int](func() {
+				for k := 1; k <= 2; k++ {
+					x := 10 * k
+					io := fpgo.MonadIONewGenerics(func() int { return caller.YieldFrom(target, x) + 1000 })
+					if observe {
+						io.ObserveOn(h)
+					}
+					vsched.Event("io-value", k, caller.YieldFromIO(io))
+				}
+			})
+			caller.Start()
+		},
+		Check: func(r *vsched.Result) []vsched.Failure {
+			fs := e1.Basic("C14", fam, r, nil)
+			if len(r.Panics) > 0 || len(fs) > 0 {
+				return fs
+			}
+			for k := 1; k <= 2; k++ {
+				if e1.Count(r, "io-value", k, 1000+k) != 1 {
+					fs = append(fs, e1.Fail("C14|"+fam+"|value", "YieldFromIO #%d did not return the IO's value %d (the target's answer %d mapped by the effect): %v", k, 1000+k, k, r.Events))
+					break
+				}
+				if e1.Count(r, "target-saw", k, 10*k) != 1 {
+					fs = append(fs, e1.Fail("C14|"+fam+"|request", "the target's YieldRef #%d did not receive the request value %d: %v", k, 10*k, r.Events))
+					break
+				}
+			}
+			return fs
+		},
+	}
+}
+
 // ctorScenario: the method-style constructors. The target comes from Cor.New (an interface{}
 // coroutine), two callers from NewAndStart (each effect waits until its coroutine variable is assigned);
 // echo generator: every caller gets its own x back, 2 requests each.
@@ -372,7 +421,7 @@ func scenarios(tier string) []*vsched.Scenario {
 		pairScenario("fixed", 2, 2, true, 3, true),   // delay bounding: the pre-emption-bounded space of 2x2 requests is large
 		pairScenario("echo", 3, 1, false, 3, true),
 		pairScenario("fixed", 7, 1, false, 1, true), // 7 pending requests at once (> buffer): delay bounding
-		startWithValScenario(false, b), startWithValScenario(true, b), doNotationScenario(b), ctorScenario(1), payloadScenario(nil, 0), payloadScenario((*int)(nil), 0), payloadScenario(0, 0))
+		startWithValScenario(false, b), startWithValScenario(true, b), doNotationScenario(b), ioOnHandlerScenario(true, b), ioOnHandlerScenario(false, b), ctorScenario(1), payloadScenario(nil, 0), payloadScenario((*int)(nil), 0), payloadScenario(0, 0))
 	if tier == "thorough" {
 		out = append(out, pairScenario("accumulate", 2, 2, false, 1, false), pairScenario("fixed", 2, 2, true, 1, false), pairScenario("echo", 3, 1, false, 1, false), pairScenario("fixed", 3, 2, true, 3, true),
 			pairScenario("echo", 4, 1, false, 2, false), pairScenario("fixed", 8, 1, false, 2, true), pairScenario("accumulate", 7, 1, true, 2, true))
